@@ -48,6 +48,14 @@ Theorem c09_convergence c1 c2 x S1 S2 h1 h2 :
   st (run_store c1 x S1 h1) = st (run_store c2 x S2 h2).
 Proof. exact (convergence c1 c2 x S1 S2 h1 h2). Qed.
 
+(* LINEARISATION INDEPENDENCE (concurrent Merge / Set / Expire): each call is atomic, so a concurrent execution
+   applies some permutation of the calls' deliveries; every permutation yields the same content. The judged
+   concurrent engine of harness/c09 (real goroutines on all cores) ties the atomicity to the code: afterwards
+   every id must hold its newest version. *)
+Theorem c09_linearisation_independent s0 ds1 ds2 :
+  ds1 ≡ₚ ds2 -> (forall k, distinct_upd (s0 !! k) (timely_k k ds1)) -> mrun s0 ds1 = mrun s0 ds2.
+Proof. exact (mrun_permutation s0 ds1 ds2). Qed.
+
 (* ... namely, per id, a version with the latest update time among the starting one and those delivered unexpired. *)
 Theorem c09_content_is_newest c x S h k :
   key_ok S -> forallb (fun d => is_plain (snd d)) h = true ->
@@ -120,3 +128,4 @@ Print Assumptions c09_convergence.
 Print Assumptions c09_merged_is_effective.
 Print Assumptions c09_never_backwards.
 Print Assumptions c09_remerge_noop.
+Print Assumptions c09_linearisation_independent.
